@@ -1,7 +1,182 @@
-(* C15 - MICE; placeholder until the proofs land. *)
-From WP Require Import Base.Prelude Model.Mice.
+(* C15 - MICE decoder: given a digest, only authenticated data is handed out.
+
+   "The digest commits to the payload" is the inductive relation [Commits] of
+   Spec/Mice.v.  Nothing is assumed about the hash H beyond the output format;
+   in particular there is NO collision-freedom assumption: every conclusion
+   has the form  "... \/ Collision H", and the proofs construct the colliding
+   pair explicitly. *)
+From WP Require Import Base.Prelude Base.Base64 Base.Sha256 Model.Mice Spec.Mice.
+From WP Require Import Proofs.MiceLemmas Proofs.MiceEncode Proofs.MiceCommit
+  Proofs.MiceDecode Proofs.MiceAuth.
 Open Scope N_scope.
 
-Theorem c15_smoke : content_encoding D03 = s2b "mi-sha256-03".
-Proof. reflexivity. Qed.
-Print Assumptions c15_smoke.
+(* a digest commits to at most one record list *)
+Theorem C15_commits_unique :
+  forall (H : bytes -> bytes) (d : bytes) (r1 r2 : list bytes),
+    Commits H d r1 -> Commits H d r2 -> r1 = r2 \/ Collision H.
+Proof. exact commits_unique. Qed.
+Print Assumptions C15_commits_unique.
+
+(* the encoder's digest commits to the records of the payload ... *)
+Theorem C15_encode_commits :
+  forall (H : bytes -> bytes), (forall x, List.length (H x) = 32%nat) ->
+  forall (d : draft) (rs : N) (p : bytes),
+    1 <= rs -> records d rs p <> [] ->
+    Commits H (digest H d rs p) (records d rs p).
+Proof. exact encode_commits. Qed.
+Print Assumptions C15_encode_commits.
+
+(* ... the only case without records is draft 03 / empty payload, whose digest
+   H [0] is the commitment to one empty record *)
+Theorem C15_records_empty_only_03 :
+  forall (d : draft) (rs : N) (p : bytes),
+    1 <= rs -> records d rs p = [] -> d = D03 /\ p = [].
+Proof. exact records_nonempty. Qed.
+Print Assumptions C15_records_empty_only_03.
+
+Theorem C15_encode_commits_empty03 :
+  forall (H : bytes -> bytes) (rs : N),
+    digest H D03 rs [] = H [0] /\ Commits H (digest H D03 rs []) [[]].
+Proof. exact encode_commits_empty03. Qed.
+Print Assumptions C15_encode_commits_empty03.
+
+(* MAIN: any stream s, any header string dg, any limit, any history of Read
+   calls (destination sizes 0 allowed).  If dg parses to a digest that commits
+   to recs, then everything delivered before the first error is a prefix of
+   concat recs, and EOF is reported only after all of it. *)
+Theorem C15_decoder_releases_only_committed :
+  forall (H : bytes -> bytes) (d : draft) (s dg : bytes) (maxrs : N) (sizes : list N)
+         (recs : list bytes) (top : bytes) (s0 : dec) (out : bytes) (st : rstat),
+    parse_digest_header d dg = Ok top -> Commits H top recs ->
+    new_decoder H d s dg maxrs = Ok s0 ->
+    read_trace H s0 sizes [] = (out, st) ->
+    ((exists rest, List.concat recs = out ++ rest) /\ (st = REOF -> out = List.concat recs))
+    \/ Collision H.
+Proof. exact decoder_releases_only_committed. Qed.
+Print Assumptions C15_decoder_releases_only_committed.
+
+Theorem C15_decode_all_only_committed :
+  forall (H : bytes -> bytes) (d : draft) (s dg : bytes) (maxrs k : N)
+         (recs : list bytes) (top out : bytes) (st : rstat),
+    parse_digest_header d dg = Ok top -> Commits H top recs ->
+    decode_all H d s dg maxrs k = Ok (out, st) ->
+    ((exists rest, List.concat recs = out ++ rest) /\ (st = REOF -> out = List.concat recs))
+    \/ Collision H.
+Proof. exact decode_all_only_committed. Qed.
+Print Assumptions C15_decode_all_only_committed.
+
+(* End to end: the header produced for payload p (by the spec = by Encode,
+   C14), presented with ANY stream s: truncated, extended, reordered, altered
+   records or proofs, other record size, ... *)
+Theorem C15_decoder_authentic :
+  forall (H : bytes -> bytes),
+    (forall x, List.length (H x) = 32%nat) -> (forall x, wfb (H x)) ->
+  forall (d : draft) (rs : N) (p s : bytes) (maxrs : N) (sizes : list N)
+         (s0 : dec) (out : bytes) (st : rstat),
+    1 <= rs ->
+    new_decoder H d s (digest_header H d rs p) maxrs = Ok s0 ->
+    read_trace H s0 sizes [] = (out, st) ->
+    ((exists rest, p = out ++ rest) /\ (st = REOF -> out = p)) \/ Collision H.
+Proof. exact decoder_authentic. Qed.
+Print Assumptions C15_decoder_authentic.
+
+Theorem C15_decode_all_authentic :
+  forall (H : bytes -> bytes),
+    (forall x, List.length (H x) = 32%nat) -> (forall x, wfb (H x)) ->
+  forall (d : draft) (rs : N) (p s : bytes) (maxrs k : N) (out : bytes) (st : rstat),
+    1 <= rs ->
+    decode_all H d s (digest_header H d rs p) maxrs k = Ok (out, st) ->
+    ((exists rest, p = out ++ rest) /\ (st = REOF -> out = p)) \/ Collision H.
+Proof. exact decode_all_authentic. Qed.
+Print Assumptions C15_decode_all_authentic.
+
+(* a record size of 0 or above the caller's limit is refused by NewDecoder:
+   nothing beyond the 8-byte size is ever read *)
+Theorem C15_record_size_refused :
+  forall (H : bytes -> bytes) (d : draft) (s dg : bytes) (maxrs : N) (hd rest : bytes),
+    splitN s 8 = Some (hd, rest) -> (unbe hd = 0 \/ maxrs < unbe hd) ->
+    new_decoder H d s dg maxrs = Err.
+Proof. exact record_size_refused. Qed.
+Print Assumptions C15_record_size_refused.
+
+(* ---- the hypotheses are satisfiable ------------------------------------- *)
+Definition msg : bytes := s2b "When I grow up, I want to be a watermelon".
+Definition strm : bytes := Eval vm_compute in stream sha256 D03 16 msg.
+Definition hdr : bytes := Eval vm_compute in digest_header sha256 D03 16 msg.
+Definition top : bytes := Eval vm_compute in digest sha256 D03 16 msg.
+
+Example hdr_parses : parse_digest_header D03 hdr = Ok top.
+Proof. vm_compute. reflexivity. Qed.
+
+Example top_commits : Commits sha256 top (records D03 16 msg).
+Proof.
+  change (records D03 16 msg) with
+    [firstn 16 msg; firstn 16 (skipn 16 msg); skipn 32 msg].
+  apply (CMore sha256 _ _ (sha256 (firstn 16 (skipn 16 msg) ++ sha256 (skipn 32 msg ++ [0]) ++ [1])));
+    [discriminate|vm_compute; reflexivity|vm_compute; reflexivity|].
+  apply (CMore sha256 _ _ (sha256 (skipn 32 msg ++ [0])));
+    [discriminate|vm_compute; reflexivity|reflexivity|].
+  apply CLast. reflexivity.
+Qed.
+
+Example size_refused_zero :
+  new_decoder sha256 D03 (be 8 0 ++ skipn 8 strm) hdr 16384 = Err.
+Proof.
+  apply (C15_record_size_refused _ _ _ _ _ (be 8 0) (skipn 8 strm)); [reflexivity|left; reflexivity].
+Qed.
+Example size_refused_too_big :
+  new_decoder sha256 D03 (be 8 16385 ++ skipn 8 strm) hdr 16384 = Err.
+Proof.
+  apply (C15_record_size_refused _ _ _ _ _ (be 8 16385) (skipn 8 strm));
+    [reflexivity|right; vm_compute; reflexivity].
+Qed.
+
+(* ---- concrete runs with SHA-256: intact stream, then mutations ---------- *)
+Definition run (s : bytes) := decode_all sha256 D03 s hdr 16384 7.
+Definition flip (i : nat) (s : bytes) : bytes :=
+  firstn i s ++ (N.lxor (nth i s 0) 1 :: skipn (S i) s).
+
+Example intact : run strm = Ok (msg, REOF).
+Proof. vm_compute. reflexivity. Qed.
+
+(* layout: [0,8) size | [8,24) r0 | [24,56) proof1 | [56,72) r1 | [72,104) proof2 | [104,113) r2 *)
+Example altered_second_record : run (flip 60 strm) = Ok (firstn 16 msg, RErr).
+Proof. vm_compute. reflexivity. Qed.
+Example altered_first_proof : run (flip 30 strm) = Ok ([], RErr).
+Proof. vm_compute. reflexivity. Qed.
+Example altered_last_record : run (flip 112 strm) = Ok (firstn 32 msg, RErr).
+Proof. vm_compute. reflexivity. Qed.
+Example truncated_at_record_boundary : run (firstn 56 strm) = Ok (firstn 16 msg, RErr).
+Proof. vm_compute. reflexivity. Qed.
+Example truncated_before_proof : run (firstn 72 strm) = Ok (firstn 16 msg, RErr).
+Proof. vm_compute. reflexivity. Qed.
+Example truncated_inside_last : run (firstn 110 strm) = Ok (firstn 32 msg, RErr).
+Proof. vm_compute. reflexivity. Qed.
+Example truncated_to_size_only : run (firstn 8 strm) = Ok ([], RErr).
+Proof. vm_compute. reflexivity. Qed.
+Example truncated_to_nothing : run [] = Err.
+Proof. vm_compute. reflexivity. Qed.
+Example extended : run (strm ++ [0]) = Ok (firstn 32 msg, RErr).
+Proof. vm_compute. reflexivity. Qed.
+Example records_swapped :
+  run (firstn 8 strm ++ firstn 16 (skipn 56 strm) ++ firstn 32 (skipn 24 strm)
+       ++ firstn 16 (skipn 8 strm) ++ skipn 72 strm) = Ok ([], RErr).
+Proof. vm_compute. reflexivity. Qed.
+Example other_record_size : run (be 8 17 ++ skipn 8 strm) = Ok ([], RErr).
+Proof. vm_compute. reflexivity. Qed.
+(* draft 02 stream truncated at the boundary after the first record *)
+Example truncated_at_record_boundary_02 :
+  decode_all sha256 D02 (firstn 56 (stream sha256 D02 16 msg))
+             (digest_header sha256 D02 16 msg) 16384 7 = Ok (firstn 16 msg, RErr).
+Proof. vm_compute. reflexivity. Qed.
+
+(* ---- the collision disjunct cannot be dropped ---------------------------- *)
+(* a "hash" that only looks at the flag byte: a forged payload is accepted
+   under the digest of another one *)
+Definition weakH (x : bytes) : bytes := be 32 (last x 0).
+Example weak_hash_is_fooled :
+  decode_all weakH D03 (stream weakH D03 4 [9; 9; 9; 9; 9]) (digest_header weakH D03 4 [1; 2; 3; 4; 5]) 16 8
+  = Ok ([9; 9; 9; 9; 9], REOF).
+Proof. vm_compute. reflexivity. Qed.
+Example weak_hash_collides : Collision weakH.
+Proof. exists [0; 1], [1; 1]. split; [discriminate|reflexivity]. Qed.
